@@ -100,6 +100,31 @@ def run(ck: Check):
             if det.name == "BOCD":
                 n = min(n, 40)
             do_case(det, cfg, gen_ops(rng, det, cfg, n), kind="random")
+    # 2b. a level change placed INSIDE the warm-up (the only evidence a warm-up violation can feed on)
+    ck.rule("warm-up shock: per detector 6-10 configurations with a long warm-up (ADWIN also with clock < min_num_instances); the stream switches level after 1, warm/3 or warm/2 values and stops a few steps after the warm-up ends; any alarm before the bound is a violation")
+    for det in ALL:
+        lo, hi = {"01": (0, 1), "unit": (0.0, 1.0), "nonneg": (0.0, 25.0), "real": (-3.0, 12.0)}[det.domain]
+        for _ in range(6 if not thorough else 30):
+            cfg = det.gen_cfg(rng)
+            for key in ("min_num_instances", "min_num_misclassified_instances"):
+                if key in cfg:
+                    cfg[key] = rng.choice([8, 12, 20, 40])
+            if det.name == "ADWIN":
+                cfg["clock"] = rng.choice([1, 2, 4])
+                cfg["min_window_size"] = rng.choice([1, 2])
+            if det.name == "KSWIN":
+                cfg["num_test_instances"] = max(1, cfg["min_num_instances"] // rng.choice([2, 4]))
+            if det.name == "RDDM":
+                cfg["min_concept_size"] = rng.choice([2, 4, 30])
+                cfg["max_concept_size"] = cfg["min_concept_size"] + rng.choice([1, 5, 100])
+            w = det.warm(cfg)
+            if det.name == "BOCD":
+                w = min(w, 30)
+                cfg["min_num_instances"] = w
+            for k in sorted({1, max(1, w // 3), max(1, w // 2)}):
+                for a_, b2 in ((lo, hi), (hi, lo)):
+                    ops = [a_] * k + [b2] * (w + 4 - k)
+                    do_case(det, cfg, ops, kind="warmup-shock")
     # 3. exhaustive 0/1 streams for the error-based detectors
     L = 10 if not thorough else 13
     ck.rule(f"exhaustive: all 2^{L} 0/1 streams of length {L} (hence all shorter prefixes) for the 7 detectors on error streams, 2 small-warm-up configurations each (HDDM in both modes); model flags computed by an enumeration inside Coq")
